@@ -438,15 +438,26 @@ func isASCII(s string) bool {
 // is the input inside the domain on which the model is compared in full: ASCII everywhere, and
 // names/paths for which printing the reference and parsing it again (types.ParseTypeRef /
 // ParseRef — property C15) gives the tree back
-func comparable(in input) (ok bool, why string) {
-	if !isASCII(in.Self) {
-		return false, "nonascii"
+func allASCII(in input) bool {
+	ok := isASCII(in.Self)
+	for _, o := range in.Ops {
+		for _, p := range opPaths(o) {
+			ok = ok && isASCII(p)
+		}
+		ok = ok && isASCII(o.Name)
 	}
+	return ok
+}
+
+// structured: the references of the history print to strings that types.ParseTypeRef / ParseRef
+// (property C15) parse back to the same trees, so "which packages does the history refer to" is
+// well defined.  Paths given to the API as separate arguments may contain anything.
+func structured(in input) (ok bool, why string) {
 	okName := func(n string) bool {
-		return n != "" && isASCII(n) && !strings.ContainsAny(n, "[],. \t\n")
+		return n != "" && !strings.ContainsAny(n, "[],. \t\n")
 	}
 	okPathInText := func(p string) bool { // a path that is printed into a reference string and parsed back
-		return isASCII(p) && !strings.ContainsAny(p, "[],") && !strings.HasSuffix(p, ".")
+		return !strings.ContainsAny(p, "[],") && !strings.HasSuffix(p, ".")
 	}
 	var okNodes func(ns []node, depth int) bool
 	okNodes = func(ns []node, depth int) bool {
@@ -464,9 +475,6 @@ func comparable(in input) (ok bool, why string) {
 		return true
 	}
 	for _, o := range in.Ops {
-		if !isASCII(o.Path) {
-			return false, "nonascii"
-		}
 		switch o.K {
 		case "add":
 		case "ref":
@@ -518,10 +526,15 @@ func (prop) Run(raw json.RawMessage, _ string) core.Result {
 	var res core.Result
 	obs := execute(in)
 	res.Observed = obs
+	str, why := structured(in)
+	cmp := str && allASCII(in)
+	if str && !cmp {
+		why = "nonascii"
+	}
 
 	// Go-side oracles
 	for _, o := range obs.Ops {
-		if o.Panicked {
+		if o.Panicked && str {
 			res.GoViolations = append(res.GoViolations, "panic while naming a reference: "+o.Panic)
 		}
 	}
@@ -538,9 +551,8 @@ func (prop) Run(raw json.RawMessage, _ string) core.Result {
 		res.GoViolations = append(res.GoViolations, "the same history on a fresh tracker gives a different result")
 	}
 
-	cmp, why := comparable(in)
 	// x/types prints an instantiated type's name the way the harness prints the tree (external component)
-	if cmp {
+	if str {
 		for _, o := range in.Ops {
 			if o.K != "lit" {
 				continue
@@ -552,7 +564,7 @@ func (prop) Run(raw json.RawMessage, _ string) core.Result {
 				var nm string
 				p, _ := core.Recover(func() { nm = typesx.FromTType(typeOf(e)).Name() })
 				if p || nm != e.Name+printArgs(e.Args) {
-					cmp, why = false, "xtypes_name_differs"
+					str, cmp, why = false, false, "xtypes_name_differs"
 					res.Notes = append(res.Notes, fmt.Sprintf("x/types names %s as %q", printNode(e), nm))
 				}
 			}
@@ -585,7 +597,7 @@ func (prop) Run(raw json.RawMessage, _ string) core.Result {
 	for _, e := range obs.LocalNames {
 		lns = append(lns, "("+core.Hex(e[0])+","+core.Hex(e[1])+")")
 	}
-	res.Coq = fmt.Sprintf("mk_case %s %s %s %s %s %s", core.Hex(in.Self), core.CoqList(ops), core.CoqBool(cmp),
+	res.Coq = fmt.Sprintf("mk_case %s %s %s %s %s %s %s", core.Hex(in.Self), core.CoqList(ops), core.CoqBool(str), core.CoqBool(cmp),
 		core.CoqList(oobs), core.CoqList(fin), core.CoqList(lns))
 
 	// symptom class of a failing case (labels the report; all three classes are repaired, none is suppressed)
@@ -599,6 +611,9 @@ func (prop) Run(raw json.RawMessage, _ string) core.Result {
 
 // which of the defects of DESIGN.md section 4 (#12, #13) the observed state exhibits
 func symptom(in input, obs observed) string {
+	if ok, _ := structured(in); !ok {
+		return ""
+	}
 	have := map[string]bool{}
 	for _, e := range obs.Final {
 		have[e.Path] = true
